@@ -1088,10 +1088,12 @@ VARIANTS = [
              (DOM, "        num_borehole += 1  # noqa: PLW2901\n\n    return rectangle_domain, field_descriptors", "        num_borehole += 1\n\n    return rectangle_domain, field_descriptors")]),
     Variant("nested bi-rectangle domain memoised under a key without b_min (seeded C03_f)", "break",
             [(DOM, "def bi_rectangle_nested(", "_nested_domains: dict = {}\n\n\ndef bi_rectangle_nested("),
-             (DOM, "    # find the maximum number of boreholes as a float\n    n_2_max = (length_2 / b_min) + 1\n    n_2_min = (length_2 / b_max_2) + 1\n", "    key = (length_1, length_2, b_max_1, b_max_2, transpose)\n    if key in _nested_domains:\n        return _nested_domains[key]\n    # find the maximum number of boreholes as a float\n    n_2_max = (length_2 / b_min) + 1\n    n_2_min = (length_2 / b_max_2) + 1\n")], "R03.6"),
+             (DOM, "    # find the maximum number of boreholes as a float\n    n_2_max = (length_2 / b_min) + 1\n    n_2_min = (length_2 / b_max_2) + 1\n", "    key = (length_1, length_2, b_max_1, b_max_2, transpose)\n    if key in _nested_domains:\n        return _nested_domains[key]\n    # find the maximum number of boreholes as a float\n    n_2_max = (length_2 / b_min) + 1\n    n_2_min = (length_2 / b_max_2) + 1\n"),
+             (DOM, "        field_descriptors.append(f_d)\n\n    return bi_rectangle_nested_domain, field_descriptors", "        field_descriptors.append(f_d)\n\n    _nested_domains[key] = (bi_rectangle_nested_domain, field_descriptors)\n    return bi_rectangle_nested_domain, field_descriptors")], "R03.6"),
     Variant("nested bi-rectangle domain memoised under a key that names every input", "benign",
             [(DOM, "def bi_rectangle_nested(", "_nested_domains: dict = {}\n\n\ndef bi_rectangle_nested("),
-             (DOM, "    # find the maximum number of boreholes as a float\n    n_2_max = (length_2 / b_min) + 1\n    n_2_min = (length_2 / b_max_2) + 1\n", "    key = (length_1, length_2, b_min, b_max_1, b_max_2, transpose)\n    if key in _nested_domains:\n        return _nested_domains[key]\n    # find the maximum number of boreholes as a float\n    n_2_max = (length_2 / b_min) + 1\n    n_2_min = (length_2 / b_max_2) + 1\n")]),
+             (DOM, "    # find the maximum number of boreholes as a float\n    n_2_max = (length_2 / b_min) + 1\n    n_2_min = (length_2 / b_max_2) + 1\n", "    key = (length_1, length_2, b_min, b_max_1, b_max_2, transpose)\n    if key in _nested_domains:\n        return _nested_domains[key]\n    # find the maximum number of boreholes as a float\n    n_2_max = (length_2 / b_min) + 1\n    n_2_min = (length_2 / b_max_2) + 1\n"),
+             (DOM, "        field_descriptors.append(f_d)\n\n    return bi_rectangle_nested_domain, field_descriptors", "        field_descriptors.append(f_d)\n\n    _nested_domains[key] = (bi_rectangle_nested_domain, field_descriptors)\n    return bi_rectangle_nested_domain, field_descriptors")]),
     Variant("bi_rectangular: full grid built with the short side's count on both axes", "break",
             [(DOM, "        coordinates = rectangle(n_1, n_2, b_1, b_2)", "        coordinates = rectangle(n_2, n_2, b_1, b_2)")], "R03.4"),
     Variant("bi_rectangular: the two spacings handed over in the wrong order", "break",
